@@ -43,6 +43,8 @@ pub enum GateKind {
     Complex,
     /// phase 1: s · (b0 − c·a0) with c the challenge usable after the first phase
     Chal,
+    /// s · (a0 − p(cur) − p(next) − p(prev)) with p the first plain instance column
+    InstRot,
     /// s · (a0(next) − a1): when listed first, the first advice query of the constraint system
     /// is a rotated one (the first opening point is then not `x`)
     NextFirst,
@@ -305,6 +307,19 @@ impl Circuit<F> for FamCircuit {
                         Constraints::without_selector(vec![q * (a0 * a1 - a2)])
                     });
                 }
+                GateKind::InstRot => {
+                    assert!(params.n_plain > 0);
+                    let s = meta.selector();
+                    gate_sel.push(s);
+                    let col = instance[params.n_committed];
+                    meta.create_gate(name, |m| {
+                        let a0 = m.query_advice(adv0[0], Rotation::cur());
+                        let pc = m.query_instance(col, Rotation::cur());
+                        let pn = m.query_instance(col, Rotation::next());
+                        let pp = m.query_instance(col, Rotation::prev());
+                        Constraints::with_selector(s, vec![a0 - pc - pn - pp])
+                    });
+                }
                 GateKind::NextFirst => {
                     let s = meta.selector();
                     gate_sel.push(s);
@@ -420,8 +435,19 @@ impl Circuit<F> for FamCircuit {
                     let (x, y, z, is_lookup);
                     if slot < p.gates.len() {
                         is_lookup = false;
-                        cfg.gate_sel[slot].enable(&mut region, 1)?;
+                        // InstRot reads the instance column at absolute rows: only meaningful
+                        // (non-zero) in the very first region, which starts at row 0.
+                        if p.gates[slot] != GateKind::InstRot || step == 0 {
+                            cfg.gate_sel[slot].enable(&mut region, 1)?;
+                        }
                         match p.gates[slot] {
+                            GateKind::InstRot => {
+                                let col = &inst[p.n_committed];
+                                let at = |i: usize| col.get(i).copied().unwrap_or(F::ZERO);
+                                x = at(1) + at(2) + at(0);
+                                y = r2;
+                                z = r1;
+                            }
                             GateKind::Mul | GateKind::Complex => {
                                 x = r1;
                                 y = r2;
@@ -519,6 +545,24 @@ impl Circuit<F> for FamCircuit {
             )?;
             let (a0, a2) = cell;
             last_a2 = Some(a2);
+            if p.copies && step % 3 == 1 {
+                // a redundant triangle of copies merging cycles of different sizes:
+                // c0 == c1; c2 == c1; c2 == c0, then the previous a2 joins the cycle
+                let v = F::from(step as u64 + 40);
+                let tri = layouter.assign_region(
+                    || "triangle",
+                    |mut region| {
+                        let c0 = asg.put(&mut region, cfg.adv0[0], 0, val(v))?;
+                        let c1 = asg.put(&mut region, cfg.adv0[1], 0, val(v))?;
+                        let c2 = asg.put(&mut region, cfg.adv0[2], 0, val(v))?;
+                        region.constrain_equal(c0.cell(), c1.cell())?;
+                        region.constrain_equal(c2.cell(), c1.cell())?;
+                        region.constrain_equal(c2.cell(), c0.cell())?;
+                        Ok(c2)
+                    },
+                )?;
+                let _ = tri;
+            }
             if p.inst_copies && p.n_committed + p.n_plain > 0 {
                 // expose a fresh advice cell equal to an instance value, in every instance column
                 for (c, col) in cfg.instance.iter().enumerate() {
@@ -551,6 +595,7 @@ pub fn sample_params(rng: &mut impl Rng) -> FamParams {
         GateKind::Complex,
         GateKind::Chal,
         GateKind::NextFirst,
+        GateKind::InstRot,
     ];
     let all_lookups = [LookupKind::Range, LookupKind::Pair, LookupKind::AnyInstance];
     let n_gates = rng.gen_range(1..=4);
@@ -563,6 +608,14 @@ pub fn sample_params(rng: &mut impl Rng) -> FamParams {
         (0..n_lookups).map(|_| all_lookups[rng.gen_range(0..all_lookups.len())]).collect();
     if n_plain == 0 {
         lookups.retain(|l| *l != LookupKind::AnyInstance);
+        gates.retain(|g| *g != GateKind::InstRot);
+        if gates.is_empty() {
+            gates.push(GateKind::Mul);
+        }
+    }
+    // InstRot and NextFirst are only effective as the first gate
+    if let Some(i) = gates.iter().position(|g| *g == GateKind::InstRot || *g == GateKind::NextFirst) {
+        gates.swap(0, i);
     }
     FamParams {
         n_adv0: rng.gen_range(3..=5),
